@@ -150,7 +150,12 @@ func checkEvents(pre, post state, evs sdk.Events, h int) {
 			nonClosed0 := verif_And(g0.State != dtypes.GroupClosed, g0.State != dtypes.GroupInsufficientFunds)
 			closedNow := verif_And(verif_Or(g1.State == dtypes.GroupClosed, g1.State == dtypes.GroupInsufficientFunds), verif_Or(nonClosed0, g0.State != g1.State))
 			evExpect(c.grpClosed[dseq], closedNow, "C16 group closed iff a group-closed event for it is emitted")
-			evExpect(c.grpPaused[dseq], verif_And(g1.State == dtypes.GroupPaused, g0.State != dtypes.GroupPaused), "C16 group paused iff a group-paused event for it is emitted")
+			// a group can be paused and then closed by an escrow overdraft inside the same transaction:
+			// the paused event is then legitimate although the group does not end up paused
+			pausedNow := verif_And(g1.State == dtypes.GroupPaused, g0.State != dtypes.GroupPaused)
+			pausedThenClosed := verif_And(g0.State == dtypes.GroupOpen, closedNow)
+			verif_Assert(verif_Implies(pausedNow, c.grpPaused[dseq] == 1), "C16 a paused group emits exactly one group-paused event")
+			verif_Assert(verif_Implies(c.grpPaused[dseq] >= 1, verif_And(c.grpPaused[dseq] == 1, verif_Or(pausedNow, pausedThenClosed))), "C16 a group-paused event is emitted only for a group that was paused")
 			evExpect(c.grpStarted[dseq], verif_And(g1.State == dtypes.GroupOpen, g0.State != dtypes.GroupOpen), "C16 group started iff a group-started event for it is emitted")
 		}
 	}
